@@ -280,7 +280,7 @@ def rule_stop_protocol(ctx, crate, g, rule="R-STOP-PROTOCOL"):
                       "tick can happen for a dropped or finished bar", cfg)
         # at the wait: no B guard and no strong Arc<Mutex<BarState>> alive
         ha = L.HeldAnalysis(rn, track=lambda l: bool(rn.locals[l].get("guards")) or
-                            (rn.locals[l].get("head") == "std::sync::Arc" and "state::BarState" in rn.locals[l]["ty"]))
+                            ("std::sync::Arc<std::sync::Mutex<state::BarState>>" in rn.locals[l]["ty"] and not rn.locals[l]["ty"].startswith("&")))
         for c in rn.calls(*L.CONDVAR_WAIT):
             held = ha.held_at_term(c.bb)
             arg_l = {operand_local(a) for a in c.args}
